@@ -238,8 +238,10 @@ def run(tier, seed, replay=None):
                 if t is not None:
                     laid.append((name, lay, mname, t))
         # long lines and deep nesting (valid shapes only; depths far below the parser's recursion limit)
-        for kind in ('paren', 'block', 'binary', 'generic', 'call-chain', 'match', 'fn-type', 'else-if-chain', 'comment-run', 'toplevels', 'concat'):
-            for d in ((50, 300) if tier == 'quick' else (50, 300, 800)):
+        # (the parser rejects more than 200 nested expressions / patterns / annotations by design)
+        nested = ('paren', 'block', 'generic', 'match', 'fn-type', 'ifelse')
+        for kind in nested + ('binary', 'call-chain', 'else-if-chain', 'comment-run', 'toplevels', 'concat'):
+            for d in ((40, 150) if kind in nested else ((50, 300) if tier == 'quick' else (50, 300, 800))):
                 laid.append(('nesting:%s:%d' % (kind, d), 'one-line', 'Main', texts.deep_nesting(kind, d)))
                 laid.append(('nesting:%s:%d' % (kind, d), 'longline', 'Main', texts.hostile_layout(lrng, texts.deep_nesting(kind, d), 'longline')))
     if os.path.isdir(CORPUS):
@@ -248,7 +250,7 @@ def run(tier, seed, replay=None):
                 laid.append(('corpus:' + fn, 'as-is', 'Main', open(os.path.join(CORPUS, fn), encoding='utf-8').read()))
 
     # ---- layer B (ii): lexer positions vs the model, and token_loc_exact on the implementation
-    lex_items = [t for (_, _, _, t) in laid if len(t) <= (6000 if tier == 'quick' else 40000)]
+    lex_items = [t for (_, _, _, t) in laid if len(t) <= (6000 if tier == "quick" else 12000)]
     if tier == 'quick' and len(lex_items) > 500:
         lex_items = lrng.shuffle(lex_items)[:500]
     results, rc = c05.lex_impl(lex_items)
